@@ -30,8 +30,8 @@ Hypothesis ltb_negtrans : forall a b c, k_ltb K a b = false -> k_ltb K b c = fal
 Hypothesis eqb_refl : forall a, k_eqb K a a = true.
 Hypothesis eqb_le : forall u v, k_eqb K u v = true -> k_ltb K v u = false.
 Hypothesis upd_below_max : forall va vb md sa sb sx,
-  k_ltb K va (k_max K) = true -> k_ltb K vb (k_max K) = true -> k_ltb K md (k_max K) = true ->
-  k_ltb K (k_upd K va vb md sa sb sx) (k_max K) = true.
+  k_ltb K va (k_inf K) = true -> k_ltb K vb (k_inf K) = true -> k_ltb K md (k_inf K) = true ->
+  k_ltb K (k_upd K va vb md sa sb sx) (k_inf K) = true.
 Hypothesis rename_reducible : below_kind_of meth = BelowRename ->
   forall va vb md sa sb sx, (uses_sizes_ab meth = true -> 0 < sa /\ 0 < sb) ->
   k_ltb K va md = false -> k_ltb K vb md = false ->
@@ -222,7 +222,7 @@ Qed.
 
 (* ---- whole runs ---- *)
 Theorem primitive_generic_agree s1 d1 s2 d2 m n sp dp mp sg dg mg M0 :
-  Forall (fun v => ltb v (k_max K) = true) (square_all K m) ->
+  Forall (fun v => ltb v (k_inf K) = true) (square_all K m) ->
   prologue p (square_all K m) n = Ok M0 ->
   primitive_with K p meth s1 d1 m n = Ok (sp, dp, mp) ->
   generic_with K p meth s2 d2 m n = Ok (sg, dg, mg) ->
@@ -241,9 +241,9 @@ Proof.
     pose proof (@generic_init_lb T K p ltb_irrefl ltb_trans s2 d2 m n0 Hz Hlen Hall sg0 Hinit) as HLB0.
     cbn zeta in Hinit, HG0, HLB0. rewrite <- EM in Hinit, HG0, HLB0.
     destruct (mfold (init_row K p M0) (seq 0 (n0 - 1))
-                (h_prio (h_heapify_pre (k_max K) (st_queue (st_reset K s2 n0))), st_nearest (st_reset K s2 n0)))
+                (h_prio (h_heapify_pre (k_inf K) (st_queue (st_reset K s2 n0))), st_nearest (st_reset K s2 n0)))
       as [[dists nearest]| |]; cbn [bind] in Hinit, Hg; try discriminate.
-    destruct (h_heapify_post (k_ltb K) (h_heapify_pre (k_max K) (st_queue (st_reset K s2 n0))) dists) as [q1| |];
+    destruct (h_heapify_post (k_ltb K) (h_heapify_pre (k_inf K) (st_queue (st_reset K s2 n0))) dists) as [q1| |];
       cbn [bind] in Hinit, Hg; try discriminate.
     inversion Hinit as [Es0]. rewrite Es0 in Hg.
     destruct (mfold (prim_iter K p meth) (seq 0 (n0 - 1)) (st_reset K s1 n0, d_reset d1 n0, M0)) as [[[sp1 dp1] Mp1]| |] eqn:Fp;
